@@ -168,6 +168,51 @@ func check(c Case, o *stats.Obs) error {
 		if txt := m.String(); txt == "" || !strings.Contains(txt, title) {
 			return fmt.Errorf("String() of type %d does not show its title %q: %q", t, title, txt)
 		}
+		// A copy of the message (as the fan-out hands to each consumer) is analysed and displayed like the
+		// original.
+		{
+			orig, _ := drive.NewHandler(lv).GetMessage(append([]byte{}, frame...))
+			if orig != nil {
+				cp := orig.Copy()
+				handler.Analyse(&cp)
+				_, c4 := cp.Readable.(*msm4.Message)
+				_, c7 := cp.Readable.(*msm7.Message)
+				_, c1005 := cp.Readable.(*type1005.Message)
+				_, c1006 := cp.Readable.(*type1006.Message)
+				if c4 != w4 || c7 != w7 || c1005 != (t == 1005) || c1006 != (t == 1006) {
+					return fmt.Errorf("type %d: a Copy() of the message, analysed, has Readable %T (error %q); want MSM4=%v MSM7=%v 1005=%v 1006=%v", t, cp.Readable, cp.ErrorMessage, w4, w7, t == 1005, t == 1006)
+				}
+				if txt := cp.String(); txt == "" || !strings.Contains(txt, title) {
+					return fmt.Errorf("String() of a Copy() of a type %d message does not show its title %q: %q", t, title, txt)
+				}
+			}
+		}
+		// One handler, one receive buffer: a frame of another type is classified, then this frame is read into
+		// the same buffer and classified.
+		{
+			otherType := 1005
+			if t == 1005 {
+				otherType = 1077
+			}
+			ow := &enc.BitWriter{}
+			ow.Put(uint64(otherType), 12)
+			ow.Put(5, 12)
+			ow.Put(1000, 30)
+			opl := make([]byte, 40)
+			copy(opl, ow.Bytes())
+			buf := enc.Frame(opl)
+			hh := drive.NewHandler(lv)
+			hh.GetMessage(buf)
+			copy(buf, frame)
+			m2, _ := hh.GetMessage(buf)
+			if m2 == nil || m2.MessageType != t || (m2.Timestamp != 0) != wm {
+				got, ts := -99, uint(0)
+				if m2 != nil {
+					got, ts = m2.MessageType, m2.Timestamp
+				}
+				return fmt.Errorf("a type %d frame read into the buffer that held a type %d frame a moment ago is reported as type %d with timestamp %d by the same handler", t, otherType, got, ts)
+			}
+		}
 		// The lazy path (PrepareForDisplay / String on a message that has not been analysed) must
 		// attempt full decoding for exactly the same types.
 		m2, _ := drive.NewHandler(lv).GetMessage(append([]byte{}, frame...))
